@@ -455,6 +455,8 @@ Section Trav2.
   Proof.
     intros HL I0. unfold apply_one. destruct (p_local p) as [l|] eqn:EL; [|exact I0].
     pose proof (HL l eq_refl) as EI.
+    destruct (negb (kind_known sc (r_known s) (p_id p))).
+    { eapply Inv_same; [| |apply Inv_ev; exact I0]; reflexivity. }
     pose proof (same4_policy_apply_filter sc s (p_id p)) as P.
     pose proof (policy_apply_filter_spec sc s (p_id p)) as PS. cbv zeta in PS.
     destruct (policy_apply_filter sc s (p_id p)) as [s1 f1]. cbn [fst snd] in P, PS. destruct P as [P1 [_ [_ P4]]].
@@ -593,7 +595,7 @@ Section RunW.
   Lemma plan_of_local : plan_local pl.
   Proof.
     intros p l Hp E. rewrite plan_of_eq in Hp.
-    destruct (bp_apply_is_local sc _ _ p Hp) as [l' [-> _]]. cbn in E. injection E as <-. reflexivity.
+    destruct (bp_apply_is_local sc _ _ _ p Hp) as [l' [-> _]]. cbn in E. injection E as <-. reflexivity.
   Qed.
 
   Lemma plan_of_tasks_ok : Forall (task_ok pl) (tasks_of sc pl).
